@@ -2,8 +2,9 @@ import BreezyVerif.Model.C19
 import BreezyVerif.Lemmas.C19
 /-!
 C19 — theorems.  All statements are over arbitrary region lists, arbitrary
-lines (byte strings, any length, with or without trailing newline) and both
-option flags; nothing is bounded.
+lines (byte strings, any length, with or without trailing newline, including
+lines that start with the sentinel or look like markers) and both option flags;
+nothing is bounded.
 
 The region computation of the external `merge3` package is an input (see
 Model/C19.lean); "the three-way merge has conflicting regions" is
@@ -11,50 +12,62 @@ Model/C19.lean); "the three-way merge has conflicting regions" is
 -/
 namespace BreezyVerif.C19
 
-/-- **Main theorem.**  If no input line that reaches the output starts with the
-sentinel, `text_merge` writes exactly the conventional rendering (start marker
-`<<<<<<< TREE`) and its `text_conflicts` flag is exactly "some region is a
-conflict".  Errors (`CantReprocessAndShowBase`, merge3's assertion) coincide. -/
-theorem text_merge_spec (o : Opts) (this : List Line) (regions : List Region)
-    (h : NoSentinel o.showBase regions) (hopt : (o.showBase && o.reprocess) = false) :
-    textMerge o this regions =
+/-- the start marker `text_merge` uses is fresh: no BASE / OTHER / THIS line starts with it
+(the `while … += b"!"` loop of the code, modelled with proved-sufficient fuel) -/
+theorem marker_fresh (base other this : List Line) :
+    ∀ l ∈ base ++ other ++ this, (freshMarker base other this).isPrefixOf l = false :=
+  freshMarker_fresh base other this
+
+/-- **Main theorem.**  For ALL inputs — including lines that start with the
+sentinel or look like markers — `text_merge` writes exactly the conventional
+rendering (start marker `<<<<<<< TREE`) and its `text_conflicts` flag is exactly
+"some region is a conflict".  The only hypothesis is that the regions denote
+lines of the inputs.  Errors (`CantReprocessAndShowBase`, merge3's assertion)
+coincide. -/
+theorem text_merge_spec (o : Opts) (base this other : List Line) (regions : List Region)
+    (h : FromInputs o.showBase base this other regions) (hopt : (o.showBase && o.reprocess) = false) :
+    textMerge o base this other regions =
       match renderSpec o this regions with
       | .error e => .error e
       | .ok ls => .ok (ls, regions.any Region.isConflict) := by
   unfold textMerge renderSpec
   simp only [hopt, Bool.false_eq_true, if_false]
-  exact mergeLines_sentinel o (newlineOf this) (newlineOf_cases this) regions h
+  obtain ⟨r0, hr0⟩ := freshMarker_form base other this
+  have hf := freshMarker_fresh base other this
+  rw [hr0] at hf ⊢
+  exact mergeLines_marker o r0 (newlineOf this) regions (fun r hr l hl => hf l (h r hr l hl))
 
-/-- the flag is set iff some region is a conflict (needs `NoSentinel`) -/
-theorem render_conflict_iff (o : Opts) (this : List Line) (regions : List Region)
-    (h : NoSentinel o.showBase regions) (ls : List Line) (flag : Bool)
-    (hr : textMerge o this regions = .ok (ls, flag)) :
+/-- the flag is set iff some region is a conflict -/
+theorem render_conflict_iff (o : Opts) (base this other : List Line) (regions : List Region)
+    (h : FromInputs o.showBase base this other regions) (ls : List Line) (flag : Bool)
+    (hr : textMerge o base this other regions = .ok (ls, flag)) :
     flag = true ↔ ∃ r ∈ regions, r.isConflict = true := by
   have hopt : (o.showBase && o.reprocess) = false := by
     cases hb : (o.showBase && o.reprocess) with
     | false => rfl
     | true => simp [textMerge, hb] at hr
-  rw [text_merge_spec o this regions h hopt] at hr
+  rw [text_merge_spec o base this other regions h hopt] at hr
   cases hs : renderSpec o this regions with
   | error e => simp [hs] at hr
   | ok l =>
     simp only [hs, Except.ok.injEq, Prod.mk.injEq] at hr
     rw [← hr.2]; simp
 
-/-- a conflict region always sets the flag — no hypothesis on the lines -/
-theorem flag_of_conflict (o : Opts) (this : List Line) (regions : List Region)
-    (ls : List Line) (flag : Bool) (hr : textMerge o this regions = .ok (ls, flag))
+/-- a conflict region always sets the flag — no hypothesis at all -/
+theorem flag_of_conflict (o : Opts) (base this other : List Line) (regions : List Region)
+    (ls : List Line) (flag : Bool) (hr : textMerge o base this other regions = .ok (ls, flag))
     (hc : ∃ r ∈ regions, r.isConflict = true) : flag = true := by
   unfold textMerge at hr
   split at hr
   · cases hr
-  · cases hm : mergeLines (withName sentinel nameA) (baseMarkerOf o) (newlineOf this) regions with
+  · simp only at hr
+    cases hm : mergeLines (withName (freshMarker base other this) nameA) (baseMarkerOf o) (newlineOf this) regions with
     | error e => simp [hm] at hr
     | ok l =>
       simp only [hm, Except.ok.injEq, iterMerge3, Prod.mk.injEq] at hr
       rw [← hr.2]
       obtain ⟨r, hr1, hr2⟩ := hc
-      exact any_fix_of_conflict _ (newlineOf this) regions l hm r hr1 hr2
+      exact any_fix_of_conflict _ _ (newlineOf this) regions l hm r hr1 hr2
 
 /-- without conflict regions the rendering is the cleanly merged text: the
 chosen side of every region, in order, and no marker line at all -/
@@ -64,12 +77,12 @@ theorem render_clean (o : Opts) (this : List Line) (regions : List Region)
   unfold renderSpec
   exact mergeLines_clean _ _ _ regions hc
 
-/-- consequently: no conflict region, no sentinel ⇒ the file holds the clean merge and no conflict is recorded -/
-theorem text_merge_clean (o : Opts) (this : List Line) (regions : List Region)
-    (h : NoSentinel o.showBase regions) (hopt : (o.showBase && o.reprocess) = false)
+/-- consequently: no conflict region ⇒ the file holds the clean merge and no conflict is recorded -/
+theorem text_merge_clean (o : Opts) (base this other : List Line) (regions : List Region)
+    (h : FromInputs o.showBase base this other regions) (hopt : (o.showBase && o.reprocess) = false)
     (hc : ∀ r ∈ regions, r.isConflict = false) :
-    textMerge o this regions = .ok (regions.flatMap Region.chosen, false) := by
-  rw [text_merge_spec o this regions h hopt, render_clean o this regions hc]
+    textMerge o base this other regions = .ok (regions.flatMap Region.chosen, false) := by
+  rw [text_merge_spec o base this other regions h hopt, render_clean o this regions hc]
   have : regions.any Region.isConflict = false := by
     simp only [List.any_eq_false]; intro r hr; simp [hc r hr]
   simp [this]
@@ -100,18 +113,16 @@ theorem render_content_show_base (o : Opts) (this : List Line) (hb : o.showBase 
             ++ (eq7 ++ newlineOf this) :: tb ++ [withName gt7 nameB ++ newlineOf this]) := by
   simp [renderSpec, mergeLines, renderRegion, baseMarkerOf, hb]
 
-/-- **Witness (finding F3).**  Without `NoSentinel` the equivalence fails: a
-conflict-free merge in which THIS added one line starting with the sentinel is
-flagged as a text conflict and the line is rewritten. -/
-theorem sentinel_collision_witness :
-    ∃ (this : List Line) (regions : List Region) (written : List Line),
-    (∀ r ∈ regions, r.isConflict = false) ∧
-    ¬ NoSentinel false regions ∧
-    textMerge ⟨false, false⟩ this regions = .ok (written, true) ∧
-    regions.flatMap Region.chosen ≠ written :=
-  ⟨[[97, 10], sentinel ++ [32, 120, 10]],
-   [.unchanged [[97, 10]], .a [sentinel ++ [32, 120, 10]], .b [[99, 10]]],
-   [[97, 10], lt7 ++ [32, 120, 10], [99, 10]], by decide⟩
+/-- **Former witness of finding F3, now positive.**  A conflict-free merge in
+which THIS added a line starting with the sentinel (and even one starting with
+the once-extended sentinel) is written verbatim and records no conflict. -/
+theorem sentinel_line_clean :
+    textMerge ⟨false, false⟩ [[97, 10]] [[97, 10], sentinel ++ [32, 120, 10], sentinel ++ [33, 10]] [[97, 10], [99, 10]]
+        [.unchanged [[97, 10]], .a [sentinel ++ [32, 120, 10], sentinel ++ [33, 10]], .b [[99, 10]]]
+      = .ok ([[97, 10], sentinel ++ [32, 120, 10], sentinel ++ [33, 10], [99, 10]], false) ∧
+    freshMarker [[97, 10]] [[97, 10], [99, 10]] [[97, 10], sentinel ++ [32, 120, 10], sentinel ++ [33, 10]]
+      = sentinel ++ [33, 33] := by
+  decide
 
 /-- `split_lines` loses nothing: helper files written from the line lists hold exactly the texts -/
 theorem join_splitLines (t : Bytes) : joinLines (splitLines t) = t := by
@@ -127,14 +138,13 @@ theorem helpers_exact (o : Opts) (base this other : List Line) (regions : List R
   repeat' split at h
   all_goals (cases h <;> exact ⟨rfl, rfl, rfl⟩)
 
-/-- **File-level statement.**  For text files (no NUL), legal options and no
-sentinel collision: a text conflict is recorded iff both sides changed the text
+/-- **File-level statement.**  For text files (no NUL) and legal options: a text conflict is recorded iff both sides changed the text
 differently and the merge has a conflict region; then the file holds the marker
 rendering and the helpers hold the three texts; otherwise the file holds the
 cleanly merged text (THIS / OTHER when only one side changed) and there are no
 helpers and no record. -/
 theorem merge_file_spec (o : Opts) (base this other : List Line) (regions : List Region)
-    (h : NoSentinel o.showBase regions) (hopt : (o.showBase && o.reprocess) = false)
+    (h : FromInputs o.showBase base this other regions) (hopt : (o.showBase && o.reprocess) = false)
     (hbin : (isBinary base || isBinary other || isBinary this) = false)
     (ls : List Line) (hs : renderSpec o this regions = .ok ls) :
     mergeFile o base this other regions =
@@ -146,7 +156,7 @@ theorem merge_file_spec (o : Opts) (base this other : List Line) (regions : List
           .textConflict (joinLines ls) (joinLines base) (joinLines this) (joinLines other)
         else .clean (joinLines ls) := by
   unfold mergeFile
-  rw [text_merge_spec o this regions h hopt, hs]
+  rw [text_merge_spec o base this other regions h hopt, hs]
   cases C18.threeWay (joinLines base) (joinLines other) (joinLines this) <;> simp only [hbin]
   cases regions.any Region.isConflict <;> simp
 
@@ -186,19 +196,20 @@ theorem resolve_contents_take_other (b t x : Bytes) :
     (Outcome.contentsConflict b t x).slot.map (resolveContents .other) =
       some ⟨some x, none, none, none, none, .item⟩ := rfl
 
-/-- **Witness (second finding).**  … but take-this deletes the contents of
-`p.OTHER`, which is the name carrying the file id, and renames *it* to `p`:
-the file is versioned but absent and `p.THIS` is left behind. -/
-theorem resolve_contents_take_this_witness (b t x : Bytes) :
+/-- … and so does take-this (after the fix: the file id is handed over to the
+helper that is kept): exactly the THIS content, no helpers, no record. -/
+theorem resolve_contents_take_this (b t x : Bytes) :
     (Outcome.contentsConflict b t x).slot.map (resolveContents .this) =
-      some ⟨none, none, some t, none, none, .item⟩ := rfl
+      some ⟨some t, none, none, none, none, .item⟩ := rfl
 
 /-! non-vacuity of the hypotheses -/
 
-example : NoSentinel true [.unchanged [[97, 10]], .conflict (some [[98, 10]]) [[66, 10]] [[88]], .b [[60, 60, 60, 60, 60, 60, 60, 10]]] := by
+example : FromInputs true [[97, 10], [98, 10]] [[97, 10], [66, 10]] [[97, 10], [88]]
+    [.unchanged [[97, 10]], .conflict (some [[98, 10]]) [[66, 10]] [[88]]] := by
   decide
 example :
-    textMerge ⟨false, true⟩ [[97, 13, 10]] [.unchanged [[97, 13, 10]], .conflict (some [[98, 10]]) [[66, 10]] [[88]]]
+    textMerge ⟨false, true⟩ [[97, 13, 10], [98, 10]] [[97, 13, 10], [66, 10]] [[97, 13, 10], [88]]
+        [.unchanged [[97, 13, 10]], .conflict (some [[98, 10]]) [[66, 10]] [[88]]]
       = .ok ([[97, 13, 10], withName lt7 nameA ++ [13, 10], [66, 10], withName bar7 nameBase ++ [13, 10], [98, 10],
               eq7 ++ [13, 10], [88], withName gt7 nameB ++ [13, 10]], true) := by
   decide
